@@ -1,6 +1,7 @@
 # C03 — deserializers are memory-safe, input-bounded and source-independent on any bytes (checks/ix_any.hpp).
-# One binary per build configuration; the jobs run one after the other, so each thorough job gets its own share of the
-# property's deadline through --budget (the harness stops cleanly at min(driver deadline, budget), deepest level first).
+# One binary per build configuration; the jobs run one after the other and the driver hands each one what is left of the
+# property's deadline, so each of the first four thorough jobs is limited to a share of it through --share (about 180 s
+# each of 1440 s; they need about 110 s on an idle 16-core machine) and the harness stops cleanly, deepest level first.
 _C03_ENV = {"ASAN_OPTIONS": "detect_leaks=0:abort_on_error=1:allocator_may_return_null=1:detect_stack_use_after_return=0:"
                             "max_malloc_fill_size=0:malloc_context_size=4:quarantine_size_mb=2:thread_local_quarantine_size_kb=64",
             "UBSAN_OPTIONS": "print_stacktrace=1:halt_on_error=1"}
@@ -16,10 +17,10 @@ _JSON_ONLY_Q = ["--corpus-full=12", "--mp-full=1", "--mp-star=2", "--corpus-full
 # quick: the non-default configurations take the full product on corpus items <= 12 bytes (default configuration: <= 24) and
 # on MessagePack strings of length <= 1 (default: <= 2; the 2-byte strings get the star) — thorough has no such reduction
 _REDUCED_Q = ["--corpus-full=12", "--mp-full=1", "--mp-star=2"]
-_C03_SMALL = _c03(["ARDUINOJSON_SLOT_ID_SIZE=1", "ARDUINOJSON_POOL_CAPACITY=4"], _REDUCED_Q, ["--budget=170"])
-_C03_LEN1 = _c03(["ARDUINOJSON_STRING_LENGTH_SIZE=1"], _REDUCED_Q, ["--budget=170"])
-_C03_DIALECT = _c03(["ARDUINOJSON_ENABLE_COMMENTS=1", "ARDUINOJSON_ENABLE_NAN=1", "ARDUINOJSON_ENABLE_INFINITY=1"], _JSON_ONLY_Q, ["--budget=170"])
-_C03_NOUNI = _c03(["ARDUINOJSON_DECODE_UNICODE=0"], _JSON_ONLY_Q, ["--budget=170"])
+_C03_SMALL = _c03(["ARDUINOJSON_SLOT_ID_SIZE=1", "ARDUINOJSON_POOL_CAPACITY=4"], _REDUCED_Q, ["--share=0.125"])
+_C03_LEN1 = _c03(["ARDUINOJSON_STRING_LENGTH_SIZE=1"], _REDUCED_Q, ["--share=0.14"])
+_C03_DIALECT = _c03(["ARDUINOJSON_ENABLE_COMMENTS=1", "ARDUINOJSON_ENABLE_NAN=1", "ARDUINOJSON_ENABLE_INFINITY=1"], _JSON_ONLY_Q, ["--share=0.16"])
+_C03_NOUNI = _c03(["ARDUINOJSON_DECODE_UNICODE=0"], _JSON_ONLY_Q, ["--share=0.19"])
 # the default configuration runs last and takes what is left of the deadline: it alone carries the deepest levels
 _C03_DEFAULT = _c03([], [], ["--json-ram=6", "--mp-ram4=1", "--corpus-max=4096"])
 
